@@ -30,8 +30,12 @@ val add : nat -> nat -> nat
 
 val mul : nat -> nat -> nat
 
+val sub : nat -> nat -> nat
+
 module Nat :
  sig
+  val eqb : nat -> nat -> bool
+
   val leb : nat -> nat -> bool
 
   val ltb : nat -> nat -> bool
@@ -1060,6 +1064,22 @@ val count_lines : n -> bytes -> z -> z -> z * z
 
 val line_and_column : bytes -> z -> z * z
 
+val bol_loop : bytes -> n -> nat -> nat -> nat option
+
+val beginning_of_line : bytes -> nat -> nat option
+
+val eol_loop : n -> bytes -> nat -> nat
+
+val end_of_line : bytes -> nat -> nat option
+
+val is_blank : n -> bool
+
+val trim_spaces_from_left : bytes -> bytes
+
+val dots : n list
+
+val quote : bytes -> z -> bytes option
+
 type sitem = { si_file : n; si_conf : conf; si_at : z }
 
 type cstate = { cs_forest : dir list; cs_ctx : path option;
@@ -1204,7 +1224,8 @@ type etable = (((bytes * z) * z) * (n * z)) list
 
 val olen_lookup : otable -> bytes -> okind -> z -> olen_res
 
-type rloc = { rl_name : bytes; rl_index : z; rl_line : z; rl_col : z }
+type rloc = { rl_name : bytes; rl_index : z; rl_line : z; rl_col : z;
+              rl_quote : bytes option }
 
 type rerr = { re_fmt : string; re_args : bytes list; re_suffix : rloc list;
               re_loc : rloc; re_trace : rloc list }
